@@ -63,17 +63,27 @@ var (
 	fsmConsumersOdd = []string{"c10", "c2", "C3", "c1", "c", "c02", "d", "c4"}
 )
 
-// avoidResumeAllPause keeps PAUSE_STREAM operations with ResumeAll=true out of the generated sequences.
-// FINDING (C06, genuine, not repaired here): a stream's resume-all mark (stream.resumeAll, set by
-// metadata.PausePartitions from the operation) is not part of Snapshot() (fsm.go: proto.Stream carries
-// name, subject, config, partitions, creation time only), so a server that rebuilds the stream from a
-// snapshot - at a restart or by an installed snapshot - has resumeAll=false where a server that applied
-// the pause live has true: after the same committed sequence a publish resumes every paused partition
-// on one server and only its own partition on the other. The clause (digest key "resume-all") stays;
-// with the switch off `bin/check C06` reports C06/restart-differs/resume-all and C06/live-differs/resume-all
-// within seconds (replays recorded with the switch off: /tmp/impl/C06-resumeall-restart.json,
-// /tmp/impl/C06-resumeall-install.json; they only reproduce with the switch off).
-const avoidResumeAllPause = true
+// PAUSE_STREAM operations with ResumeAll=true are a recorded finding (C06, known_findings.json): a stream's
+// resume-all mark (stream.resumeAll, set by metadata.PausePartitions from the operation) is not part of
+// Snapshot() (proto.Stream carries name, subject, config, partitions, creation time only), so a server that
+// rebuilds the stream from a snapshot - at a restart or by an installed snapshot - has resumeAll=false where
+// a server that applied the pause live has true. fsmResumeAllShare keeps such operations out of all but a
+// small share of the programs (the clause, digest key "resume-all", is always on).
+const avoidResumeAllPause = false
+
+// fsmResumeAllShare: in 1 of 25 programs pauses may carry ResumeAll=true; in the others the third argument
+// of every pause is made even (ResumeAll=false).
+func fsmResumeAllShare(p *hx.Program, r *simrt.Rand) {
+	if r.Intn(25) == 0 {
+		p.P["resumeall"] = 1
+		return
+	}
+	for i := range p.Ops {
+		if p.Ops[i].K == "pause" && len(p.Ops[i].A) > 2 && p.Ops[i].A[2]%2 == 1 {
+			p.Ops[i].A[2]++
+		}
+	}
+}
 
 // fsmExpiry is a liveness timer of a group member that fired on a node which believes it coordinates the group.
 type fsmExpiry struct {
